@@ -16,15 +16,24 @@ Section Run.
   Notation save_plan := (save_plan content pickle).
 
   (* ---- the worker acts on the directory as its job does ---------------------------------------------------------- *)
+  Lemma single_files cfg nm files :
+    single_level (c_level cfg) (c_all_iters cfg) = true -> mol_files cfg nm = Ok files -> exists f0, files = [f0].
+  Proof. unfold mol_files, filenames. intros ->. intro H. inversion H. eauto. Qed.
+
   Lemma worker_is_job cfg fs i : snd (worker cfg fs i) = run_job (c_overwrite cfg) fs (worker_job cfg i).
   Proof.
-    unfold worker, worker_job, mol_step, run_job, job_skips. destruct i as [name loop|].
+    unfold worker, worker_job, mol_step, run_job, job_writes, job_skips. destruct i as [name loop|].
     - destruct (c_base cfg) as [b|]; simpl.
       + destruct name as [nm|]; simpl.
-        * destruct (mol_files cfg nm) as [files|e]; simpl.
-          -- destruct (forallb (fs_isfile fs) files && negb (c_overwrite cfg)); [reflexivity|].
+        * destruct (mol_files cfg nm) as [files|e] eqn:Ef; simpl.
+          -- destruct (forallb (fs_isfile fs) files && negb (c_overwrite cfg)) eqn:Esk; [reflexivity|].
              destruct loop as [d|e]; simpl; [|reflexivity].
-             destruct (save_plan files (c_level cfg) (c_all_iters cfg) d); reflexivity.
+             destruct (save_plan files (c_level cfg) (c_all_iters cfg) d) as [ws|e] eqn:Es; [|reflexivity]. simpl.
+             destruct (single_level (c_level cfg) (c_all_iters cfg)) eqn:Esl; [|reflexivity].
+             (* one file, not skipped: the per-file test is vacuous *)
+             destruct (single_files cfg nm files Esl Ef) as [f0 ->]. unfold Batch.save_plan in Es. rewrite Esl in Es.
+             destruct (dict_max_key d); [|discriminate]. destruct (dict_get d z); [|discriminate]. inversion Es. simpl.
+             unfold fs_keep. simpl. simpl in Esk. rewrite andb_true_r in Esk. rewrite Esk. reflexivity.
           -- destruct (negb (c_overwrite cfg)); reflexivity.
         * destruct (negb (c_overwrite cfg)); reflexivity.
       + destruct (negb (c_overwrite cfg)); reflexivity.
@@ -321,18 +330,11 @@ Section Run.
     apply files_schedule_independent; [apply jobs_disjoint; assumption|apply jobs_wf; exact Hl|apply Permutation_map; exact Hp].
   Qed.
 
-  Lemma batch_resume_preserves cfg fs order db i :
-    c_overwrite cfg = false -> level_ok cfg -> NoDup (saved_names order) -> In i order ->
-    all_exist content fs (worker_job cfg i) ->
-    forall p, In p (j_files (worker_job cfg i)) ->
-      fs_lookup (snd (run cfg fs order db)) p = fs_lookup fs p /\ ~ In p (run_log false fs (jobs cfg order)).
-  Proof.
-    intros Ho Hl Hnd Hi Hex p Hp. rewrite run_fs, Ho.
-    assert (Hj : In (worker_job cfg i) (jobs cfg order)) by (apply in_map; exact Hi).
-    split.
-    - apply (resume_preserves_content content fs _ _ (jobs_disjoint cfg order Hl Hnd) (jobs_wf cfg order Hl) Hj Hex p Hp).
-    - apply (resume_preserves_written content fs _ _ p (jobs_disjoint cfg order Hl Hnd) (jobs_wf cfg order Hl) Hj Hex Hp).
-  Qed.
+  (* no-overwrite run: every file that exists keeps its content and is not written (no premise on the inputs at all) *)
+  Lemma batch_resume_preserves cfg fs order db p :
+    c_overwrite cfg = false -> fs_isfile fs p = true ->
+    fs_lookup (snd (run cfg fs order db)) p = fs_lookup fs p /\ ~ In p (run_log false fs (jobs cfg order)).
+  Proof. intros Ho Hp. rewrite run_fs, Ho. apply resume_preserves. exact Hp. Qed.
 
   Lemma batch_resume_completes cfg fs order db i :
     level_ok cfg -> NoDup (saved_names order) -> In i order -> complete content (worker_job cfg i) ->
@@ -354,26 +356,23 @@ Section Run.
 
   Lemma batch_crash_then_resume cfg fs order order' ks db db' p :
     c_overwrite cfg = false -> level_ok cfg -> NoDup (saved_names order) ->
-    (forall i, In i order -> input_ok cfg i) ->
-    consistent content fs (jobs cfg order) -> length ks = length order -> Permutation order order' ->
+    length ks = length order -> Permutation order order' ->
     fs_lookup (snd (run cfg (run_partial false fs (combine (jobs cfg order) ks)) order' db')) p
     = fs_lookup (snd (run cfg fs order db)) p.
   Proof.
-    intros Ho Hl Hnd Hok Hcons Hlen Hp. rewrite !run_fs, Ho.
+    intros Ho Hl Hnd Hlen Hp. rewrite !run_fs, Ho.
     pose proof (crash_then_resume content fs (combine (jobs cfg order) ks) (jobs cfg order') p) as Q. cbv zeta in Q.
     rewrite (jobs_of_combine content (jobs cfg order) ks) in Q by (rewrite map_length; exact Hlen).
-    apply Q; [apply jobs_disjoint; assumption|apply jobs_wf; exact Hl|apply jobs_aon; exact Hok|exact Hcons|apply Permutation_map; exact Hp].
+    apply Q; [apply jobs_disjoint; assumption|apply jobs_wf; exact Hl|apply Permutation_map; exact Hp].
   Qed.
 
   Lemma batch_crash_then_resume_serial cfg fs order order' k db db' p :
-    c_overwrite cfg = false -> level_ok cfg -> NoDup (saved_names order) ->
-    (forall i, In i order -> input_ok cfg i) ->
-    consistent content fs (jobs cfg order) -> Permutation order order' ->
+    c_overwrite cfg = false -> level_ok cfg -> NoDup (saved_names order) -> Permutation order order' ->
     fs_lookup (snd (run cfg (run_interrupted false fs (jobs cfg order) k) order' db')) p
     = fs_lookup (snd (run cfg fs order db)) p.
   Proof.
-    intros Ho Hl Hnd Hok Hcons Hp. rewrite !run_fs, Ho.
-    apply crash_then_resume_serial; [apply jobs_disjoint; assumption|apply jobs_wf; exact Hl|apply jobs_aon; exact Hok|exact Hcons|apply Permutation_map; exact Hp].
+    intros Ho Hl Hnd Hp. rewrite !run_fs, Ho.
+    apply crash_then_resume_serial; [apply jobs_disjoint; assumption|apply jobs_wf; exact Hl|apply Permutation_map; exact Hp].
   Qed.
 
   (* with both a database and an output directory, a molecule that is skipped contributes nothing to the database *)
@@ -454,8 +453,9 @@ Section Run.
   Lemma cg_is_job ow fs out_file gen :
     snd (cg_step content ow fs out_file gen) = run_job ow fs (cg_job content out_file gen).
   Proof.
-    unfold cg_step, run_job, job_skips, cg_job. simpl. rewrite andb_true_r.
-    destruct (fs_isfile fs out_file && negb ow); [reflexivity|]. destruct gen; reflexivity.
+    unfold cg_step, run_job, job_writes, job_skips, cg_job. cbn [j_files j_plan forallb].
+    rewrite andb_true_r. destruct (fs_isfile fs out_file && negb ow) eqn:E; [reflexivity|].
+    destruct gen as [c|]; [|reflexivity]. cbn [filter]. unfold fs_keep. cbn [fst]. rewrite E. reflexivity.
   Qed.
 
   Lemma cg_job_wf out_file gen : wf_job content (cg_job content out_file gen) /\ all_or_nothing content (cg_job content out_file gen).
@@ -475,19 +475,20 @@ Definition pb : path := ("out1"%string, "m.fp.bz2"%string).
 Definition two_level_job : job Z := mkjob [pa; pb] [(pa, 1); (pb, 2)].
 
 (* all_iters, level 1: the level-1 file exists (with some other content), the level-0 file is missing.  The all-files-
-   exist test fails, the molecule is recomputed and BOTH files are written: the existing one is replaced. *)
-Lemma partial_molecule_existing_file_replaced :
+   exist test fails, the molecule is recomputed, and since repair e0cef96 only the missing file is written: the existing
+   one keeps its content and is not in the write log.  (Before the repair both files were written.) *)
+Lemma partial_molecule_existing_file_untouched :
   let fs := [(pb, 99)] in
-  fs_lookup fs pb = Some 99 /\ fs_lookup (run_job false fs two_level_job) pb = Some 2 /\
-  job_log false fs two_level_job = [pa; pb].
+  fs_lookup (run_job false fs two_level_job) pb = Some 99 /\ fs_lookup (run_job false fs two_level_job) pa = Some 1 /\
+  job_log false fs two_level_job = [pa].
 Proof. repeat split; reflexivity. Qed.
 
-(* without `consistent`: a stale level-1 file and a crash right after the level-0 file was written.  The re-run finds
-   both files and skips the molecule: the stale file survives, whereas an uninterrupted run would have replaced it. *)
-Lemma crash_with_stale_file_refuted :
+(* a stale level-1 file and a crash right after the level-0 file was written: the stale file survives the re-run - exactly
+   as it survives an uninterrupted no-overwrite run, so no hypothesis on the content of existing files is needed *)
+Lemma crash_with_stale_file_kept :
   let fs := [(pb, 99)] in
   fs_lookup (run_jobs false (run_partial false fs [(two_level_job, 1%nat)]) [two_level_job]) pb = Some 99 /\
-  fs_lookup (run_jobs false fs [two_level_job]) pb = Some 2.
+  fs_lookup (run_jobs false fs [two_level_job]) pb = Some 99.
 Proof. split; reflexivity. Qed.
 
 (* without `disjoint` (two inputs with the same molecule name): the directory depends on the completion order *)
